@@ -563,6 +563,14 @@ impl TransactionalMemory {
                 ))
                 .into());
             }
+            // The magic number is written last, so a file that carries it held a whole header;
+            // one shorter than that was truncated. Don't read past its end.
+            if initial_storage_len < DB_HEADER_SIZE as u64 {
+                return Err(StorageError::Corrupted(format!(
+                    "File truncated below the database header: file_len={initial_storage_len}"
+                ))
+                .into());
+            }
         } else {
             // File is empty, check that we're allowed to initialize a new database (i.e. the caller is Database::create() and not open())
             if !allow_initialize {
